@@ -36,11 +36,11 @@ ASSUMPTIONS = [
     "force_stop() called on the owner's own loop: a coroutine call whose awaited future had been resolved before that call must deliver the body's outcome (it only needs one more loop turn); "
     "futures resolved after the call may end either way; bodies still suspended end with a cancellation",
 ]
-PROBES = ["call.handover", "call.coro_value", "call.coro_slow", "call.coro_careful", "call.coro_raises", "call.coro_raises_now", "call.coro_value_now", "call.plain_none", "call.plain_value", "call.attr", "call.direct", "call.after_close", "force_stop_mid_burst", "force_stop_from_task",
+PROBES = ["call.handover", "call.coro_value", "call.coro_slow", "call.coro_careful", "call.coro_raises", "call.coro_raises_now", "call.coro_value_now", "call.coro_raises_timeout", "call.coro_raises_lookup", "call.plain_none", "call.plain_value", "call.attr", "call.direct", "call.after_close", "force_stop_mid_burst", "force_stop_from_task",
           "preempted_in_proxy", "thread_switches", "typeerror_on_owner", "cancelled_by_stop", "owner_main_direction", "burst_ge_10", "ownerstop.direct", "ownerstop.done_callback",
           "ownerstop.call_value", "ownerstop.call_raise", "ownerstop.call_late", "ownerstop.call_never"]
 
-KINDS = ("coro_value", "coro_raises", "plain_none", "plain_value", "attr", "coro_slow", "coro_careful", "coro_raises_now", "coro_value_now")
+KINDS = ("coro_value", "coro_raises", "plain_none", "plain_value", "attr", "coro_slow", "coro_careful", "coro_raises_now", "coro_value_now", "coro_raises_timeout", "coro_raises_lookup")
 
 
 class Boom(Exception):
@@ -93,6 +93,17 @@ class Obj:
         """Raises before its first suspension (like send_data on a link that has already failed)."""
         self._note("coro_raises_now", x)
         raise Boom(x)
+
+    async def coro_raises_timeout(self, x):
+        """Raises an exception of a type asyncio itself uses for control flow (like Gateway.reset() running into RESET_TIMEOUT)."""
+        self._note("coro_raises_timeout", x)
+        await asyncio.sleep(0)
+        raise asyncio.TimeoutError("body", x)
+
+    async def coro_raises_lookup(self, x):
+        self._note("coro_raises_lookup", x)
+        await asyncio.sleep(0)
+        raise KeyError("body", x)
 
     async def coro_value_now(self, x):
         """Finishes without ever suspending."""
@@ -457,7 +468,7 @@ def run(scenario, params, tape, detail=False):
             st["closed"] = wl.is_closed()
             if direction == "worker" and wl.is_closed():
                 # C20.closed: calls after the owner loop finished closing execute nothing and do not block
-                for k in ("coro_value", "plain_none", "plain_value", "coro_raises", "coro_raises_now", "coro_value_now"):
+                for k in ("coro_value", "plain_none", "plain_value", "coro_raises", "coro_raises_now", "coro_value_now", "coro_raises_timeout", "coro_raises_lookup"):
                     probe("call.after_close")
                     n0 = len(rec)
                     c = {"id": len(calls), "kind": k, "result": None, "after_close": True}
@@ -542,8 +553,9 @@ def run(scenario, params, tape, detail=False):
                     viol.append(("C20.relay", "cancelled", f"coroutine call {c['id']} was cancelled without force_stop"))
             if res[0] == "value" and n_exec != 1:
                 viol.append(("C20.relay", "value-without-execution", f"coroutine call {c['id']} returned a value but its body ran {n_exec} times"))
-        elif k in ("coro_raises", "coro_raises_now"):
-            if res[0] == "raised" and not isinstance(res[1], Boom) and not overl:
+        elif k in ("coro_raises", "coro_raises_now", "coro_raises_timeout", "coro_raises_lookup"):
+            want_t = {"coro_raises_timeout": asyncio.TimeoutError, "coro_raises_lookup": KeyError}.get(k, Boom)
+            if res[0] == "raised" and not (isinstance(res[1], want_t) and (want_t is Boom or res[1].args[:1] == ("body",))) and not overl:
                 viol.append(("C20.relay", "wrong-exception", f"coroutine call {c['id']} raised {res[1]!r} instead of the body's exception"))
             elif res[0] == "value":
                 viol.append(("C20.relay", "exception-lost", f"coroutine call {c['id']} returned {res[1]!r} although its body raised"))
@@ -561,6 +573,9 @@ def run(scenario, params, tape, detail=False):
         probe("typeerror_on_owner", nte)
         if nte != npv and stop_ev is None:
             viol.append(("C20.plain", "typeerror-count", f"{npv} plain calls returned a value on the owner loop but {nte} TypeErrors were reported there"))
+    if sched.livelock:
+        viol.append(("C20.deadlock", "livelock", f"thread {sched.livelock[0]} executed more than {sched.max_line_events} lines inside bellows/thread.py ({sched.livelock[1]}, line {sched.livelock[2]}) "
+                     f"without returning to its event loop: the caller's loop is spinning"))
     if outcome == "hang":
         blocked = [c for c in calls if c.get("issued") is not None and c.get("ended") is None and not c.get("after_close")]
         early = [c for c in blocked if stop_ev is None or c["issued"] < stop_ev and False]
@@ -576,7 +591,7 @@ def run(scenario, params, tape, detail=False):
     probe("thread_switches", sched.switches)
     kinds = tuple(c["kind"] for c in calls)
     sig = hashlib.blake2b(repr((sstr, kinds, direction, stop_ev is not None)).encode(), digest_size=8).digest()
-    nontrivial = bool(sched.preemptions) or stop_ev is not None or any(c["kind"] in ("coro_raises", "coro_raises_now", "plain_value", "attr") for c in calls)
+    nontrivial = bool(sched.preemptions) or stop_ev is not None or any(c["kind"] in ("coro_raises", "coro_raises_now", "coro_raises_timeout", "coro_raises_lookup", "plain_value", "attr") for c in calls)
     res = {"viol": viol, "faults": {"force_stop": 1} if stop_ev is not None else {}, "probes": probes, "vt": sched.vt, "iters": sum(lp.iters for lp in sched.loops.values()),
            "sig": sig, "nontrivial": nontrivial,
            "digest": hashlib.sha256(repr((sstr, kinds, [(c["kind"], c["result"] and c["result"][0]) for c in calls], outcome)).encode()).hexdigest()[:16],
